@@ -225,7 +225,10 @@ func (p *protocol) handleTransactionPayload(ctx context.Context, connection grpc
 		return err
 	}
 
-	// it's saved, remove the job
+	// it's saved, remove the job (there is no job scheduler if the node has no node DID)
+	if p.privatePayloadReceiver == nil {
+		return nil
+	}
 	return p.privatePayloadReceiver.Finished(ref)
 }
 
